@@ -432,6 +432,8 @@ class Branch(Base):
         if where == "search":
             self.shadow.update(alts)
             self.need_queue = (d, need, t1)
+        else:
+            self.shave_ctx = (t0, d, a, b)
 
     def alg_enter(self, idx, args, inner):
         nq = self.need_queue
@@ -471,6 +473,23 @@ class Branch(Base):
             self.fail("C09", "backtrack_popped_wrong_count", "top %d -> %d" % (self.bt_top, t))
             return
         if where != "search":
+            # a shaving probe is popped: if the level it returns to ends up with a moved bound (the value was shaved),
+            # that bound must be announced to its watchers like any alternative taken on backtracking
+            ctx = getattr(self, "shave_ctx", None)
+            self.shave_ctx = None
+            stack = self.solver_stack() if self.solver_stack else None
+            if ctx is not None and stack is not None and ctx[0] == t:
+                _, d, a, b = ctx
+                lo, hi = int(stack[t, d, MIN]), int(stack[t, d, MAX])
+                from framework import branchcheck
+
+                need = branchcheck.need_events(lo, hi, a, b)
+                if need and lo <= hi:
+                    self.c("shaves_audited")
+                    msg = branchcheck.check_queue(queue, flags[t], trig, d, need)
+                    if msg:
+                        self.fail("C09", "watcher_not_queued_after_shave", msg, where=where)
+                        self.fail("C10", "shaved_bound_not_announced", msg, where=where)
             return
         sh = self.shadow.pop(t, None)
         if sh is None:
